@@ -10,6 +10,9 @@ pub mod c16;
 pub mod c17;
 pub mod registry;
 pub mod c12;
+pub mod c13;
+pub mod c14;
+pub mod c15;
 pub mod c19;
 pub mod c20;
 pub mod model;
@@ -25,6 +28,9 @@ pub fn build(id: &str, tier: &str) -> Option<Check> {
         "C10" => c10::build(quick),
         "C11" => c11::build(quick),
         "C12" => c12::build(quick),
+        "C13" => c13::build(quick),
+        "C14" => c14::build(quick),
+        "C15" => c15::build(quick),
         "C16" => c16::build(quick),
         "C17" => c17::build(quick),
         "C19" => c19::build(quick),
